@@ -151,6 +151,7 @@ ViolFrames(k) ==
     ELSE IF k = "rsv1" THEN {WithRsv(b, 4) : b \in {b \in Bases : ~(cfg.deflate /\ b.op \in {1, 2})}}
     ELSE IF k = "badop" THEN {Frame(1, 0, o, 0, 0, 0) : o \in BadOps \cap (11..15)}
                              \cup (IF frag.op = 0 THEN {Frame(1, 0, o, Small.wlen, Small.id, 0) : o \in BadOps \cap (3..7)} ELSE {})
+    ELSE IF k = "badopfrag" THEN (IF frag.op = 0 THEN {Frame(0, 0, o, Small.wlen, Small.id, 0) : o \in BadOps \cap (3..7)} ELSE {})
     ELSE IF k = "fragctl" THEN {Frame(0, 0, 9, 0, 0, 0)}
     ELSE IF k = "bigctl" THEN {Frame(1, 0, 9, 126, 0, 0)}
     ELSE IF k = "contnostart" THEN (IF frag.op = 0 THEN {Frame(1, 0, 0, Small.wlen, Small.id, 0), Frame(0, 0, 0, Small.wlen, Small.id, 0)} ELSE {})
